@@ -67,6 +67,10 @@ func (rp *RuleParser) ParseVariables(vars string) error {
 					curKey = append(curKey, c)
 				}
 			}
+			if curr == 2 && (c != '/' || isEscaped) {
+				// the input ended inside the regular expression
+				return fmt.Errorf("unterminated regular expression key: %q", vars)
+			}
 			v, err := variables.Parse(string(curVar))
 			if err != nil {
 				return err
